@@ -281,6 +281,7 @@ MO = 'sedfitter/convolve/monochromatic.py'
 CF = 'sedfitter/convolved_fluxes/convolved_fluxes.py'
 ML = 'sedfitter/models.py'
 MUST_FIRE = [
+    ('round 12 twin: the sorter handed to searchsorted is the identity: the decreasing wavelengths are searched as stored', [(MO, "    jlo = n_wav - 1 - (wavelengths[::-1].searchsorted(wav_max) - 1)\n    jhi = n_wav - 1 - wavelengths[::-1].searchsorted(wav_min)", "    by_increasing = np.arange(n_wav)\n    jlo = n_wav - 1 - (int(wavelengths.searchsorted(wav_max, side='left', sorter=by_increasing)) - 1)\n    jhi = n_wav - 1 - int(wavelengths.searchsorted(wav_min, side='left', sorter=by_increasing))")]),
     ('whole-chunk work arrays filled with reshape(n_chunk, n_ap) of the (n_ap, n_chunk) slice: apertures and wavelengths scrambled', [('sedfitter/convolve/monochromatic.py', "        fluxes = [ConvolvedFluxes(model_names=np.zeros(n_models, dtype='U30'), apertures=apertures, initialize_arrays=True) for i in range(n_chunk)]\n\n        b = ProgressBar(len(sed_files))\n\n        # Loop over SEDs\n        for im, sed_file in enumerate(sed_files):\n\n            b.update()\n\n            log.debug('Processing {0}'.format(os.path.basename(sed_file)))\n\n            # Read in SED\n            s = SED.read(sed_file, unit_freq=u.Hz, unit_flux=u.mJy, order='nu')\n\n            # Convolve\n            for j in range(n_chunk):\n\n                fluxes[j].central_wavelength = wavelengths[j + jmin]\n                fluxes[j].apertures = apertures\n                fluxes[j].model_names[im] = s.name\n\n                if n_ap == 1:\n                    fluxes[j].flux[im] = s.flux[0, j + jmin]\n                    fluxes[j].error[im] = s.error[0, j + jmin]\n                else:\n                    fluxes[j].flux[im, :] = s.flux[:, j + jmin]\n                    fluxes[j].error[im, :] = s.error[:, j + jmin]\n\n        for j in range(n_chunk):\n", "        fluxes = [ConvolvedFluxes(wavelength=wavelengths[i + jmin], model_names=np.zeros(n_models, dtype='U30'), apertures=apertures) for i in range(n_chunk)]\n\n        # Rather than setting the values one model, wavelength and aperture at\n        # a time through the ConvolvedFluxes properties (which is slow for\n        # large grids, since every access goes through Quantity), we fill plain\n        # arrays holding the whole chunk and hand them over once all the SEDs\n        # have been read in.\n        model_names = np.zeros(n_models, dtype='U30')\n        chunk_flux = np.zeros((n_chunk, n_models, n_ap))\n        chunk_error = np.zeros((n_chunk, n_models, n_ap))\n\n        b = ProgressBar(len(sed_files))\n\n        # Loop over SEDs\n        for im, sed_file in enumerate(sed_files):\n\n            b.update()\n\n            log.debug('Processing {0}'.format(os.path.basename(sed_file)))\n\n            # Read in SED\n            s = SED.read(sed_file, unit_freq=u.Hz, unit_flux=u.mJy, order='nu')\n\n            # Convolve - this is just the slice of the SED for this chunk,\n            # for all apertures at once\n            model_names[im] = s.name\n            chunk_flux[:, im, :] = s.flux.value[:, jmin:jmax + 1].reshape(n_chunk, n_ap)\n            chunk_error[:, im, :] = s.error.value[:, jmin:jmax + 1].reshape(n_chunk, n_ap)\n\n        for j in range(n_chunk):\n            fluxes[j].model_names = model_names\n            fluxes[j].flux = chunk_flux[j] * u.mJy\n            fluxes[j].error = chunk_error[j] * u.mJy\n")]),
     ('last chunk clipped at the end of the grid instead of the window', [(MO, 'jmax = min(jmin + chunk_size - 1, jhi)', 'jmax = min(jmin + chunk_size - 1, n_wav - 1)')]),
     ('jlo off by one', [(MO, "jlo = n_wav - 1 - (wavelengths[::-1].searchsorted(wav_max) - 1)", "jlo = n_wav - 1 - wavelengths[::-1].searchsorted(wav_max)")]),
@@ -302,6 +303,7 @@ MUST_FIRE = [
     ('wavelength searched on the unreversed array', [(MO, "jhi = n_wav - 1 - wavelengths[::-1].searchsorted(wav_min)", "jhi = n_wav - 1 - wavelengths.searchsorted(wav_min)")]),
 ]
 MUST_SILENT = [
+    ('round 12: the window searched in the stored (decreasing) wavelengths through the permutation that sorts them', [(MO, "    jlo = n_wav - 1 - (wavelengths[::-1].searchsorted(wav_max) - 1)\n    jhi = n_wav - 1 - wavelengths[::-1].searchsorted(wav_min)", "    by_increasing = np.arange(n_wav - 1, -1, -1)\n    jlo = n_wav - 1 - (int(wavelengths.searchsorted(wav_max, side='left', sorter=by_increasing)) - 1)\n    jhi = n_wav - 1 - int(wavelengths.searchsorted(wav_min, side='left', sorter=by_increasing))")]),
     ('whole-chunk work arrays filled with the transposed slice', [('sedfitter/convolve/monochromatic.py', "        fluxes = [ConvolvedFluxes(model_names=np.zeros(n_models, dtype='U30'), apertures=apertures, initialize_arrays=True) for i in range(n_chunk)]\n\n        b = ProgressBar(len(sed_files))\n\n        # Loop over SEDs\n        for im, sed_file in enumerate(sed_files):\n\n            b.update()\n\n            log.debug('Processing {0}'.format(os.path.basename(sed_file)))\n\n            # Read in SED\n            s = SED.read(sed_file, unit_freq=u.Hz, unit_flux=u.mJy, order='nu')\n\n            # Convolve\n            for j in range(n_chunk):\n\n                fluxes[j].central_wavelength = wavelengths[j + jmin]\n                fluxes[j].apertures = apertures\n                fluxes[j].model_names[im] = s.name\n\n                if n_ap == 1:\n                    fluxes[j].flux[im] = s.flux[0, j + jmin]\n                    fluxes[j].error[im] = s.error[0, j + jmin]\n                else:\n                    fluxes[j].flux[im, :] = s.flux[:, j + jmin]\n                    fluxes[j].error[im, :] = s.error[:, j + jmin]\n\n        for j in range(n_chunk):\n", "        fluxes = [ConvolvedFluxes(wavelength=wavelengths[i + jmin], model_names=np.zeros(n_models, dtype='U30'), apertures=apertures) for i in range(n_chunk)]\n\n        # Rather than setting the values one model, wavelength and aperture at\n        # a time through the ConvolvedFluxes properties (which is slow for\n        # large grids, since every access goes through Quantity), we fill plain\n        # arrays holding the whole chunk and hand them over once all the SEDs\n        # have been read in.\n        model_names = np.zeros(n_models, dtype='U30')\n        chunk_flux = np.zeros((n_chunk, n_models, n_ap))\n        chunk_error = np.zeros((n_chunk, n_models, n_ap))\n\n        b = ProgressBar(len(sed_files))\n\n        # Loop over SEDs\n        for im, sed_file in enumerate(sed_files):\n\n            b.update()\n\n            log.debug('Processing {0}'.format(os.path.basename(sed_file)))\n\n            # Read in SED\n            s = SED.read(sed_file, unit_freq=u.Hz, unit_flux=u.mJy, order='nu')\n\n            # Convolve - this is just the slice of the SED for this chunk,\n            # for all apertures at once\n            model_names[im] = s.name\n            chunk_flux[:, im, :] = s.flux.value[:, jmin:jmax + 1].T\n            chunk_error[:, im, :] = s.error.value[:, jmin:jmax + 1].T\n\n        for j in range(n_chunk):\n            fluxes[j].model_names = model_names\n            fluxes[j].flux = chunk_flux[j] * u.mJy\n            fluxes[j].error = chunk_error[j] * u.mJy\n")]),
     ('jlo simplified', [(MO, "jlo = n_wav - 1 - (wavelengths[::-1].searchsorted(wav_max) - 1)", "jlo = n_wav - wavelengths[::-1].searchsorted(wav_max)")]),
     ('actual length inlined', [(MO, "            for j in range(n_chunk):\n\n                fluxes[j].central_wavelength", "            for j in range(jmax - jmin + 1):\n\n                fluxes[j].central_wavelength")]),
